@@ -3,7 +3,7 @@ From Coq Require Import List Permutation String.
 From TS Require Import Model.Str Model.Outcome Model.Unicode Model.Syntax Model.Rename Model.Types Model.Parse Model.Reconcile Model.Collect Model.Lang.Common Model.MultiFile.
 From TS Require Model.Writer.
 From TS Require Import Spec.C14Spec.
-From TS Require Proofs.C14 Proofs.C14Front Proofs.C14Main Proofs.C14Imports Proofs.C14Witness.
+From TS Require Proofs.C14 Proofs.C14Front Proofs.C14Main Proofs.C14Imports Proofs.C14Order Proofs.C14Witness.
 Import ListNotations.
 Local Open Scope string_scope.
 
@@ -144,7 +144,9 @@ Print Assumptions C14_files_written.
 (* ---------------------------------------------------------------- (2) imports are sound, unconditionally *)
 
 (* every imported (module, name): the module is another crate's and its type table holds the name; for any
-   iteration order of CrateTypes that yields only entries of the map, any import set, any crates *)
+   iteration order of CrateTypes that yields only entries of the map, any import set, any crates.
+   Unconditional - in particular for glob imports: `use d::*;` imports every type of d, also those the file
+   never uses; that is sound (completeness, below, is the clause about what MUST be imported). *)
 Theorem C14_imports_sound :
   forall (hc : crate_types -> crate_types) (cs : crates) (cn : str) (pd : parsed) (k n : str),
     (forall l x, In x (hc l) -> In x l) ->
@@ -153,8 +155,9 @@ Theorem C14_imports_sound :
 Proof. exact Proofs.C14.imports_sound. Qed.
 Print Assumptions C14_imports_sound.
 
-(* in the specification's terms: no import of any generated file names the file itself or a type that is not
-   the generated name of an annotated item of a source file of the module's crate *)
+(* in the specification's terms: no import of any generated file names the file itself or a name that is not
+   the generated name of an annotated TYPE (struct, enum, alias - not a const) of a source file of the module's
+   crate.  Unconditional; an import brought in by a glob and not used by the file is sound. *)
 Theorem C14_imports_sound_spec :
   forall (uc : unicode) (T ign : list str) (ho_file ho_crate : list imported -> list imported)
          (hc : crate_types -> crate_types) (ws : list ws_entry) (arrivals : list (str * parsed)),
@@ -168,10 +171,13 @@ Print Assumptions C14_imports_sound_spec.
 (* ---------------------------------------------------------------- (3) imports are complete on dom_C14 *)
 
 (* For every workspace and all iteration orders: every reference the specification finds in a source file of
-   crate c to a type of another generated crate d (judge_crate) that lies in dom_C14 - introduced by a plain /
-   grouped / nested `use d::..::N` or a path d::..::N, nothing else in the file brings in N from elsewhere,
-   the target not serde-renamed, the name unique across crates, d and N outside the ignore lists, N not
-   type-mapped and not a name of the file itself - is imported from d in c's generated file.
+   crate c to a type of another generated crate d (judge_crate) that lies in dom_C14 is imported from d, under
+   the name the type is generated under, in c's generated file.  dom_C14 = dom_named || dom_glob:
+   (a) named - introduced by a plain / grouped / nested `use d::..::N` or a path d::..::N, nothing else in the
+       file brings in N from elsewhere, the target not serde-renamed, the name unique across crates, d and N
+       outside the ignore lists, N not type-mapped and not the name of a type of the file itself;
+   (b) covered by a glob - the file says `use d::*;`, directly or nested (`use d::m::*;`, `use d::{m::*, X};`),
+       d outside the ignore lists (no condition on the target: renamed and same-named types included).
    (uc agrees with ASCII below 128; ign is both ParseContext::ignored_types and the specification's `mapped`.) *)
 Theorem C14_imports_complete :
   forall (uc : unicode), unicode_ok uc ->
@@ -205,7 +211,7 @@ Print Assumptions C14_imports_good.
 (* the domain of C14_imports_complete contains no input of a recorded finding class: a reference that is in
    dom_C14 and not imported is a NEW violation, never one of the known ones *)
 Theorem C14_dom_excludes_known :
-  forall ws mapped s c d n, dom_C14 ws mapped s c d n = true -> known_C14 ws s c d n = None.
+  forall ws mapped s c d n, dom_C14 ws mapped s c d n = true -> known_C14 ws mapped s c d n = None.
 Proof. exact Proofs.C14Imports.dom_excludes_known. Qed.
 Print Assumptions C14_dom_excludes_known.
 
@@ -221,6 +227,46 @@ Theorem C14_imports_complete_nonvacuous :
 Proof. exact Proofs.C14Witness.imports_complete_nonvacuous. Qed.
 Print Assumptions C14_imports_complete_nonvacuous.
 
+(* the (b) half of the domain is inhabited too: `use a::*;` and a reference to the serde-renamed A2 - in
+   dom_C14, in no finding class, imported (rv_imported: under the generated name, here A2Renamed) *)
+Theorem C14_imports_complete_glob_nonvacuous :
+  renamed_in (Proofs.C14Main.c14_infos uc_exec [] Proofs.C14Witness.ws_glob_renamed) (lit "a") (lit "A2") = lit "A2Renamed" /\
+  exists arrivals pd v,
+    parse_workspace uc_exec [] [] (fun l => l) Proofs.C14Witness.ws_glob_renamed = Ok arrivals /\
+    In (lit "my_crate", pd) (multi_crates (fun l => l) arrivals) /\
+    In v (judge_crate (Proofs.C14Main.c14_infos uc_exec [] Proofs.C14Witness.ws_glob_renamed) [] (lit "my_crate")
+            (scoped_pairs (crate_imports (fun l => l) (multi_crates (fun l => l) arrivals) (lit "my_crate") pd))) /\
+    rv_name v = lit "A2" /\ rv_from v = lit "a" /\ rv_dom v = true /\ rv_known v = None /\ rv_imported v = true.
+Proof. exact Proofs.C14Witness.glob_renamed_imported. Qed.
+Print Assumptions C14_imports_complete_glob_nonvacuous.
+
+(* ---------------------------------------------------------------- no iteration order of the import set reaches the pairs *)
+
+(* used_imports (mod.rs:430) is a function of the SET of imports it iterates over: two lists with the same
+   elements - two iteration orders of the per-crate HashSet<ImportedType> - yield the same (module, name) pairs,
+   for any type table and any crate.  (Before the /repo fix of mod.rs:472 a glob import was effective only if an
+   import of the same crate had been iterated earlier: finding C14-glob-order.)  What is left order-dependent is
+   the fallback's choice among several crates, which goes through the CrateTypes order hc: C14-same-name. *)
+Theorem C14_imports_iteration_order_irrelevant :
+  forall (ct : crate_types) (own : str) (l1 l2 : list imported),
+    (forall x, In x l1 <-> In x l2) ->
+    forall k n, In (k, n) (scoped_pairs (used_imports ct own l1)) <-> In (k, n) (scoped_pairs (used_imports ct own l2)).
+Proof. exact Proofs.C14Imports.used_imports_order_irrelevant. Qed.
+Print Assumptions C14_imports_iteration_order_irrelevant.
+
+(* ... and the same VALUE: the BTreeMap of BTreeSets that write_imports prints (keys in order, every set in order,
+   an entry with an empty set included) is equal for two lists with the same elements; so for every oracle ho
+   (oracle_ok: ho rearranges its argument) iterating the import set of a crate in the order ho gives the import
+   list of the identity order - the import statements are the same bytes. *)
+Theorem C14_import_list_order_irrelevant :
+  (forall (ct : crate_types) (own : str) (l1 l2 : list imported),
+     (forall x, In x l1 <-> In x l2) -> used_imports ct own l1 = used_imports ct own l2) /\
+  (forall (hc : crate_types -> crate_types) (cs : crates) (cn : str) (pd : parsed) (ho : list imported -> list imported),
+     Proofs.C14Front.oracle_ok ho ->
+     crate_imports hc cs cn (with_imports pd (ho (p_imports pd))) = crate_imports hc cs cn pd).
+Proof. split; [exact Proofs.C14Order.used_imports_order_irrelevant_eq|exact Proofs.C14Order.crate_imports_order_irrelevant]. Qed.
+Print Assumptions C14_import_list_order_irrelevant.
+
 (* ---------------------------------------------------------------- finding classes of the unchanged tree *)
 
 (* C14-renamed-import: `use a::A2;` with A2 #[serde(rename = "A2Renamed")] - used, never imported *)
@@ -234,17 +280,6 @@ Theorem C14_renamed_import_refuted :
 Proof. exact Proofs.C14Witness.renamed_import_refuted. Qed.
 Print Assumptions C14_renamed_import_refuted.
 
-(* C14-glob: `use a::*;` imports nothing *)
-Theorem C14_glob_refuted :
-  exists arrivals pd v,
-    parse_workspace uc_exec [] [] (fun l => l) Proofs.C14Witness.ws_glob = Ok arrivals /\
-    In (lit "my_crate", pd) (multi_crates (fun l => l) arrivals) /\
-    In v (judge_crate (Proofs.C14Main.c14_infos uc_exec [] Proofs.C14Witness.ws_glob) [] (lit "my_crate")
-            (scoped_pairs (crate_imports (fun l => l) (multi_crates (fun l => l) arrivals) (lit "my_crate") pd))) /\
-    rv_known v = Some "C14-glob" /\ rv_imported v = false.
-Proof. exact Proofs.C14Witness.glob_refuted. Qed.
-Print Assumptions C14_glob_refuted.
-
 (* C14-same-name: S in crates a and c, `use zz::S;` - under the reversed iteration order of CrateTypes the
    import comes from ./c, not from the first defining crate *)
 Theorem C14_same_name_refuted :
@@ -257,16 +292,9 @@ Theorem C14_same_name_refuted :
 Proof. exact Proofs.C14Witness.same_name_refuted. Qed.
 Print Assumptions C14_same_name_refuted.
 
-(* C14-glob-order / C14-same-name: the import list is a function of the iteration order.  w_run ho_crate hc ws c
-   (Proofs.C14Witness) = the model's import pairs for crate c and the specification's verdicts on them. *)
-Theorem C14_glob_order_refuted :
-  Proofs.C14Witness.w_run (fun l => l) (fun l => l) Proofs.C14Witness.ws_glob_explicit (lit "my_crate") =
-    Some ([(lit "a", lit "A1"); (lit "a", lit "A2Renamed"); (lit "a", lit "A3")], [(lit "A1", lit "a", true, None, true)]) /\
-  Proofs.C14Witness.w_run (@rev _) (fun l => l) Proofs.C14Witness.ws_glob_explicit (lit "my_crate") =
-    Some ([(lit "a", lit "A1")], [(lit "A1", lit "a", true, None, true)]).
-Proof. exact Proofs.C14Witness.glob_order_eval. Qed.
-Print Assumptions C14_glob_order_refuted.
-
+(* C14-same-name: the import list is a function of the iteration order of CrateTypes.  w_run ho_crate hc ws c
+   (Proofs.C14Witness) = the model's import pairs for crate c and the specification's verdicts on them
+   (name, crate, in dom_C14, finding class, imported). *)
 Theorem C14_same_name_order_refuted :
   Proofs.C14Witness.w_run (fun l => l) (fun l => l) Proofs.C14Witness.ws_same_name (lit "my_crate") =
     Some ([(lit "a", lit "S")], [(lit "S", lit "a", false, Some "C14-same-name", true)]) /\
@@ -275,14 +303,43 @@ Theorem C14_same_name_order_refuted :
 Proof. exact Proofs.C14Witness.same_name_eval. Qed.
 Print Assumptions C14_same_name_order_refuted.
 
-(* C14-glob-const: k defines K1 and `const MyConst`; `use k::*; use k::K1;` - the effective glob imports MyConst from
-   ./k (const_imports singles it out), while TypeScript writes that const as MY_CONST (typescript.rs write_const) *)
-Theorem C14_glob_const_refuted :
-  exists verdicts,
-    Proofs.C14Witness.w_run (fun l => l) (fun l => l) Proofs.C14Witness.ws_glob_const (lit "my_crate") =
-      Some ([(lit "k", lit "K1"); (lit "k", lit "MyConst")], verdicts) /\
-    const_imports (Proofs.C14Main.c14_infos uc_exec [] Proofs.C14Witness.ws_glob_const) [(lit "k", lit "K1"); (lit "k", lit "MyConst")]
-      = [(lit "k", lit "MyConst")] /\
-    str_to_uppercase uc_exec (to_snake_case uc_exec (lit "MyConst")) = lit "MY_CONST".
-Proof. exact Proofs.C14Witness.glob_const_refuted. Qed.
-Print Assumptions C14_glob_const_refuted.
+(* ---------------------------------------------------------------- regression pins of the classes repaired in /repo *)
+
+(* formerly C14-glob (`use a::*;` imported nothing - mod.rs:472 `and_modify` without `or_insert`): the former
+   witness; the reference to A1 is in dom_C14, in no finding class, and imported *)
+Theorem C14_glob_fixed :
+  exists arrivals pd v,
+    parse_workspace uc_exec [] [] (fun l => l) Proofs.C14Witness.ws_glob = Ok arrivals /\
+    In (lit "my_crate", pd) (multi_crates (fun l => l) arrivals) /\
+    In v (judge_crate (Proofs.C14Main.c14_infos uc_exec [] Proofs.C14Witness.ws_glob) [] (lit "my_crate")
+            (scoped_pairs (crate_imports (fun l => l) (multi_crates (fun l => l) arrivals) (lit "my_crate") pd))) /\
+    rv_dom v = true /\ rv_known v = None /\ rv_imported v = true.
+Proof. exact Proofs.C14Witness.glob_fixed. Qed.
+Print Assumptions C14_glob_fixed.
+
+(* formerly C14-glob-order (`use a::*; use a::A1;`: `import { A1 }` or `import { A1, A2Renamed, A3 }` depending on
+   the iteration order of the per-crate import set): the former witness gives the same list - every type of
+   crate a - under both orders *)
+Theorem C14_glob_order_fixed :
+  Proofs.C14Witness.w_run (fun l => l) (fun l => l) Proofs.C14Witness.ws_glob_explicit (lit "my_crate") =
+    Some ([(lit "a", lit "A1"); (lit "a", lit "A2Renamed"); (lit "a", lit "A3")], [(lit "A1", lit "a", true, None, true)]) /\
+  Proofs.C14Witness.w_run (@rev _) (fun l => l) Proofs.C14Witness.ws_glob_explicit (lit "my_crate") =
+    Some ([(lit "a", lit "A1"); (lit "a", lit "A2Renamed"); (lit "a", lit "A3")], [(lit "A1", lit "a", true, None, true)]).
+Proof. exact Proofs.C14Witness.glob_order_eval. Qed.
+Print Assumptions C14_glob_order_fixed.
+
+(* formerly C14-glob-const (k defines K1 and `const MyConst`; `use k::*; use k::K1;` imported MyConst from ./k
+   while TypeScript writes that const as MY_CONST): a const is no longer in the type table (parser.rs push) -
+   under both iteration orders exactly K1 is imported, and the specification calls the old list unsound
+   (MyConst is not the name of a TYPE of k; const_imports names the reason) *)
+Theorem C14_glob_const_fixed :
+  Proofs.C14Witness.w_run (fun l => l) (fun l => l) Proofs.C14Witness.ws_glob_const (lit "my_crate") =
+    Some ([(lit "k", lit "K1")], [(lit "K1", lit "k", true, None, true)]) /\
+  Proofs.C14Witness.w_run (@rev _) (fun l => l) Proofs.C14Witness.ws_glob_const (lit "my_crate") =
+    Some ([(lit "k", lit "K1")], [(lit "K1", lit "k", true, None, true)]) /\
+  unsound_imports (Proofs.C14Main.c14_infos uc_exec [] Proofs.C14Witness.ws_glob_const) (lit "my_crate")
+    [(lit "k", lit "K1"); (lit "k", lit "MyConst")] = [(lit "k", lit "MyConst")] /\
+  const_imports (Proofs.C14Main.c14_infos uc_exec [] Proofs.C14Witness.ws_glob_const) [(lit "k", lit "K1"); (lit "k", lit "MyConst")]
+    = [(lit "k", lit "MyConst")].
+Proof. exact Proofs.C14Witness.glob_const_fixed. Qed.
+Print Assumptions C14_glob_const_fixed.
